@@ -52,6 +52,9 @@ pub enum Op {
     /// debugging aid: record get_mapping() of a guest block as a Note
     #[serde(rename = "map")]
     Map { gb: u64 },
+    /// Alloc.tla replay: the in-ram refcount of the first `n` host clusters
+    #[serde(rename = "rcdump")]
+    RcDump { n: usize },
     /// C09: get_mapping() of every guest cluster / the derived geometry
     #[serde(rename = "mapall")]
     MapAll,
@@ -102,6 +105,13 @@ pub enum ImageSrc {
     File { path: String, cb: u32, ro: u32, vsize: u64 },
 }
 
+#[derive(Clone, Debug, Serialize, Deserialize, Default)]
+pub struct RcPattern {
+    pub used: Vec<usize>,
+    pub rb1: bool,
+    pub hint: u64,
+}
+
 #[derive(Clone, Debug, Serialize, Deserialize)]
 pub struct Sched {
     /// fifo | random | pct | script | rel
@@ -146,6 +156,10 @@ pub struct Scenario {
     /// record the in-ram metadata view (hook H1) at every scheduler step
     #[serde(default)]
     pub sample_ram: bool,
+    /// Alloc.tla replay: refcount pattern imposed on the built image (clusters
+    /// listed are given refcount 1, all others 0) and the allocator's hint
+    #[serde(default)]
+    pub rc_pattern: Option<RcPattern>,
     /// C14: structured malformations (field, class) applied to the top image
     #[serde(default)]
     pub mutations: Vec<(String, String)>,
@@ -276,6 +290,30 @@ pub struct Runner {
 
 fn mk_params(bsb: u32, p: &Params, ro: bool) -> Qcow2DevParams {
     Qcow2DevParams::new(bsb as u8, p.rb, p.l2, ro, false)
+}
+
+/// impose a refcount pattern on a compactly built image (header, reftable,
+/// refblock 0, L1 at clusters 0..3): used clusters get refcount 1
+pub fn apply_rc_pattern(img: &mut Vec<u8>, g: &Geom, pt: &RcPattern) {
+    let h = parse_header(img).expect("rc_pattern: valid base image");
+    let cs = g.cs();
+    let rbn = g.rbn();
+    let rt = h.rt_off as usize;
+    let rb0 = (u64::from_be_bytes(img[rt..rt + 8].try_into().unwrap()) & !0x1ff) as usize;
+    for c in 0..rbn {
+        set_refcount(&mut img[rb0..rb0 + cs], c, g.ro, if pt.used.contains(&c) { 1 } else { 0 });
+    }
+    if pt.rb1 {
+        // second refblock at its fixed place: the first cluster of its range
+        let off = rbn * cs;
+        if img.len() < off + cs {
+            img.resize(off + cs, 0);
+        }
+        img[rt + 8..rt + 16].copy_from_slice(&(off as u64).to_be_bytes());
+        for c in 0..rbn {
+            set_refcount(&mut img[off..off + cs], c, g.ro, if pt.used.contains(&(rbn + c)) { 1 } else { 0 });
+        }
+    }
 }
 
 thread_local! {
@@ -494,6 +532,9 @@ impl Runner {
             };
             let (mut b, t, g) = img_bytes(src, bs, backing);
             if i == 0 {
+                if let Some(pt) = &sc.rc_pattern {
+                    apply_rc_pattern(&mut b, &g, pt);
+                }
                 for (f, c) in sc.mutations.iter() {
                     if b.len() >= 72 && parse_header(&b).is_some() {
                         crate::mutate::apply(&mut b, &g, f, c);
@@ -672,6 +713,9 @@ impl Runner {
             }
         }
         self.ev(json!({"e":"OpenRes","res":"ok","layer":0,"msg":""}));
+        if let Some(pt) = &self.sc.rc_pattern {
+            dev.verif_set_free_cluster_offset(pt.hint << self.geom.cb);
+        }
         self.dev = Some(dev);
         self.dev_ro = ro;
         Ok(())
@@ -1051,6 +1095,47 @@ impl Runner {
                     }
                     if let Err(e) = self.open(&p, self.geom.bsb, *ro) {
                         self.outcome.push(e);
+                    }
+                }
+                Op::RcDump { n } => {
+                    if let Some(dev) = &self.dev {
+                        let snap = dev.verif_snapshot();
+                        let ev = ram_event(&snap, &self.world, &self.sink);
+                        // refcounts of the in-ram view, decoded independently
+                        let g = self.geom;
+                        let w = self.world.borrow();
+                        let mut img = w.files[0].data.clone();
+                        let put = |img: &mut Vec<u8>, off: u64, d: &[u8]| {
+                            let off = off as usize;
+                            if img.len() < off + d.len() {
+                                img.resize(off + d.len(), 0);
+                            }
+                            img[off..off + d.len()].copy_from_slice(d);
+                        };
+                        if let Some(nc) = &snap.new_clusters {
+                            for c in nc {
+                                put(&mut img, c << g.cb, &vec![0u8; g.cs()]);
+                            }
+                        }
+                        if let (Some(o), Some(d)) = (snap.reftable_offset, &snap.reftable) {
+                            put(&mut img, o, d);
+                        }
+                        for sl in snap.rb_slices.iter() {
+                            if let Some(o) = sl.offset {
+                                put(&mut img, o, &sl.data);
+                            }
+                        }
+                        let rt = snap.reftable_offset.unwrap_or(0) as usize;
+                        let mut used = Vec::new();
+                        for c in 0..*n {
+                            let e = rt + (c / g.rbn()) * 8;
+                            let rb = if img.len() >= e + 8 { (u64::from_be_bytes(img[e..e + 8].try_into().unwrap()) & !0x1ff) as usize } else { 0 };
+                            if rb != 0 && img.len() >= rb + g.cs() && refcount_at(&img[rb..rb + g.cs()], c % g.rbn(), g.ro) != 0 {
+                                used.push(c);
+                            }
+                        }
+                        drop(w);
+                        self.ev(json!({"e":"Note","msg":"rcdump","used": used, "hint": ev["hint"]}));
                     }
                 }
                 Op::MapAll => {
